@@ -26,8 +26,13 @@ const (
 	c20EBADF
 	c20ClosedFile
 	c20UnexpectedEOF
+	c20Aggregate // an unknown failure whose error type is not comparable (a slice of errors)
 	c20NumClasses
 )
+
+type c20Multi []error
+
+func (m c20Multi) Error() string { return "several failures" }
 
 type c20TimeoutErr struct{}
 
@@ -88,6 +93,8 @@ func (r *c20Reader) ReadPacketData() ([]byte, *gopacket.CaptureInfo, error) {
 		err = errors.New("read packet: use of closed file")
 	case c20UnexpectedEOF:
 		err = io.ErrUnexpectedEOF
+	case c20Aggregate:
+		err = c20Multi{&c20Err{i}, io.ErrShortWrite}
 	}
 	r.errs = append(r.errs, err)
 	return nil, nil, err
@@ -167,7 +174,7 @@ func VerifH_C20_faults() {
 			pi++
 		case c20EAGAIN, c20WrappedEAGAIN, c20Timeout, c20ConnReset, c20OpErrReset:
 			verifCover("temporary")
-		case c20Unknown:
+		case c20Unknown, c20Aggregate:
 			verifCover("unknown")
 			wantErrs = append(wantErrs, rd.errs[i])
 		default:
@@ -188,7 +195,7 @@ func VerifH_C20_faults() {
 	verifAssert(len(got) == len(wantErrs), "number of reported errors differs (temporary faults must be silent, unknown faults and processor errors reported once)")
 	for i := range wantErrs {
 		if i < len(got) {
-			verifAssert(got[i] == wantErrs[i], "reported error is not the one that occurred / wrong order")
+			verifAssert(c20SameErr(got[i], wantErrs[i]), "reported error is not the one that occurred / wrong order")
 		}
 	}
 }
@@ -226,7 +233,7 @@ func VerifH_C20_cancel() {
 				wantErrs = append(wantErrs, pr.procErrs[pi])
 			}
 			pi++
-		case c20Unknown:
+		case c20Unknown, c20Aggregate:
 			if !last {
 				wantErrs = append(wantErrs, rd.errs[i])
 			}
@@ -242,7 +249,7 @@ func VerifH_C20_cancel() {
 	verifAssert(len(got) >= len(wantErrs) && len(got) <= len(wantErrs)+1, "errors lost or duplicated around cancellation")
 	for i := range wantErrs {
 		if i < len(got) {
-			verifAssert(got[i] == wantErrs[i], "reported error is not the one that occurred / wrong order")
+			verifAssert(c20SameErr(got[i], wantErrs[i]), "reported error is not the one that occurred / wrong order")
 		}
 	}
 }
@@ -311,6 +318,7 @@ type c20SeqReader struct {
 	cancel   func()
 	at       []int64
 	errs     []error
+	same     bool
 }
 
 func (r *c20SeqReader) ReadPacketData() ([]byte, *gopacket.CaptureInfo, error) {
@@ -322,7 +330,10 @@ func (r *c20SeqReader) ReadPacketData() ([]byte, *gopacket.CaptureInfo, error) {
 	}
 	switch {
 	case i < r.N:
-		e := &c20Err{i}
+		var e error = &c20Err{i}
+		if r.same {
+			e = syscall.ENETDOWN // the very same error value every time (interface down)
+		}
 		r.errs = append(r.errs, e)
 		return nil, nil, e
 	case i == r.N:
@@ -339,7 +350,7 @@ func VerifH_C20_unknownBurst() {
 	N := verifParam("N", 12)
 	const perFailure = int64(250 * time.Millisecond)
 	verifNow()
-	rd := &c20SeqReader{N: N, cancelAt: -1}
+	rd := &c20SeqReader{N: N, cancelAt: -1, same: ndBool("sameErrorValue")}
 	if ndBool("cancel") {
 		c := ndU8("cancelAtCall")
 		verifAssume(int(c) <= N)
@@ -370,4 +381,14 @@ func VerifH_C20_unknownBurst() {
 		verifAssert(pr.seen == 1, "the frame behind the failures was not processed")
 		verifAssert(rd.calls == N+2, "reading did not continue up to the closing fault")
 	}
+}
+
+// c20SameErr: identity for comparable errors; for the aggregate type, the same first element.
+func c20SameErr(a, b error) bool {
+	ma, oka := a.(c20Multi)
+	mb, okb := b.(c20Multi)
+	if oka || okb {
+		return oka && okb && len(ma) == len(mb) && len(ma) > 0 && ma[0] == mb[0]
+	}
+	return a == b
 }
